@@ -101,12 +101,10 @@ def io_choice(repo: Repo, R):
     fi = repo.func(F_CONNT, "io_for_checking")
     par, ch = [a.arg for a in fi.node.args.args[:2]]
     names = _atoms_for(fi, (par, ch))
-    if set(names) != {par, ch}:
-        raise AnalysisError(f"idiom-unknown: parent/child flattened flags not found in {fi.site}: {names}")
 
     def atom(nm, who):
         def f(t):
-            if isinstance(t, ast.Name) and t.id == nm:
+            if nm is not None and isinstance(t, ast.Name) and t.id == nm:
                 return True
             s = ast.unparse(t)
             if s == f"{who}._pre_flattening_io is not None":
@@ -116,14 +114,13 @@ def io_choice(repo: Repo, R):
             return False
         return f
 
-    atoms = [("P", atom(names[par], par)), ("C", atom(names[ch], ch))]
-    body = list(fi.node.body)
-    # skip the non-Module prefix (isinstance dispatch) and the flag definitions
-    start = 0
-    for i, st in enumerate(body):
-        if isinstance(st, ast.Assign) and isinstance(st.targets[0], ast.Name) and st.targets[0].id in names.values():
-            start = i + 1
-    prefix_ok = any(isinstance(st, ast.If) and "isinstance" in ast.unparse(st.test) and "PrimitiveCall" in ast.unparse(st.test) and isinstance(st.body[-1], ast.Return) and ast.unparse(st.body[-1].value) in (f"copy.copy({ch}.ports)", f"dict({ch}.ports)") for st in body[:start])
+    def kind_atom(kinds):
+        def f(t):
+            r = au.isinstance_classes(t) if isinstance(t, ast.Call) else None
+            return r is not None and ast.unparse(r[0]) == ch and {ast.unparse(c).split(".")[-1] for c in r[1]} == kinds
+        return f
+
+    atoms = [("P", atom(names.get(par), par)), ("C", atom(names.get(ch), ch)), ("X", kind_atom({"ExternalModuleCall", "PrimitiveCall"})), ("M", kind_atom({"Module"}))]
 
     def norm(v):
         s = ast.unparse(v)
@@ -131,25 +128,47 @@ def io_choice(repo: Repo, R):
             return "CURRENT"
         if s in (f"copy.copy({ch}._pre_flattening_io)", f"dict({ch}._pre_flattening_io)", f"copy({ch}._pre_flattening_io)"):
             return "SNAPSHOT"
+        if s in (f"copy.copy({ch}.ports)", f"dict({ch}.ports)", f"copy({ch}.ports)"):
+            return "PORTS"
         return s
 
+    body = [st for st in fi.node.body if not (isinstance(st, ast.Expr) and isinstance(st.value, ast.Constant))]
     try:
-        tab = fde.decision_table(body[start:], atoms, ["<return>"], norm)
+        tab = fde.decision_table(body, atoms, ["<return>"], norm)
     except fde.Unknown as e:
         raise AnalysisError(f"idiom-unknown: io_for_checking: {e}")
-    got = {("T" if p else "F") + ("T" if c else "F"): v["<return>"] for (p, c), v in tab.items()}
+    got = {("T" if p else "F") + ("T" if c else "F"): v["<return>"] for (p, c, x, m), v in tab.items() if not x and m}
     want = {"FF": "CURRENT", "FT": "SNAPSHOT", "TT": "CURRENT", "TF": "RAISE"}
+    prefix_ok = all(v["<return>"] == "PORTS" for (p, c, x, m), v in tab.items() if x and not m) and all(v["<return>"] == "RAISE" for (p, c, x, m), v in tab.items() if not x and not m)
     R.check(got == want and prefix_ok, rule, key_of(fi), fi.site,
-            f"decision table over (parent flattened, child flattened): {got}; expected {want}; primitives/external modules return a copy of their ports: {prefix_ok}",
+            f"decision table over (parent flattened, child flattened): {got}; expected {want}; primitives/external modules return a copy of their ports, other kinds raise: {prefix_ok}",
             why="a parent checked before its own flattening compares bundle connections with the child's flattened scalar ports (or the reverse), depending on which was elaborated first")
     fr = repo.func(F_PORTREFS, "io_for_resolving")
     a = fr.node.args.args[0].arg
-    ok = False
-    for n in au.walk_no_nested(fr.node):
-        if isinstance(n, ast.If) and ast.unparse(n.test) == f"{a}._pre_flattening_io is not None":
-            ok = isinstance(n.body[-1], ast.Return) and ast.unparse(n.body[-1].value) in (f"copy.copy({a}._pre_flattening_io)", f"dict({a}._pre_flattening_io)")
-    last = fr.node.body[-1]
-    ok2 = isinstance(last, ast.Return) and ast.unparse(last.value) == f"io({a})"
+    def norm2(v):
+        s = ast.unparse(v)
+        if s == f"io({a})":
+            return "CURRENT"
+        if s in (f"copy.copy({a}._pre_flattening_io)", f"dict({a}._pre_flattening_io)", f"copy({a}._pre_flattening_io)"):
+            return "SNAPSHOT"
+        return s
+
+    def kind_atom2(kinds):
+        def f(t):
+            r = au.isinstance_classes(t) if isinstance(t, ast.Call) else None
+            return r is not None and ast.unparse(r[0]) == a and {ast.unparse(c).split(".")[-1] for c in r[1]} == kinds
+        return f
+
+    def has_snapshot(t):
+        s = ast.unparse(t)
+        return True if s == f"{a}._pre_flattening_io is not None" else ("neg" if s == f"{a}._pre_flattening_io is None" else False)
+
+    try:
+        tab2 = fde.decision_table([st for st in fr.node.body if not (isinstance(st, ast.Expr) and isinstance(st.value, ast.Constant))], [("S", has_snapshot), ("X", kind_atom2({"ExternalModuleCall", "PrimitiveCall"})), ("M", kind_atom2({"Module"}))], ["<return>"], norm2)
+    except fde.Unknown as e:
+        raise AnalysisError(f"idiom-unknown: io_for_resolving: {e}")
+    ok = tab2[(True, False, True)]["<return>"] == "SNAPSHOT"
+    ok2 = tab2[(False, False, True)]["<return>"] == "CURRENT"
     R.check(ok and ok2, rule, key_of(fr), fr.site, f"io_for_resolving returns the snapshot iff it exists ({ok}), else the current io ({ok2})",
             why="a port reference to a bundle-valued port of an already flattened child creates the wrong kind of implicit net")
     # both users of a child's ports during reference / no-connect resolution go through io_for_resolving
@@ -176,7 +195,7 @@ def freeze(repo: Repo, R):
         raise AnalysisError(f"idiom-unknown: container stores not found in {fi.site}")
     guard_texts = [("cond", f"{m}._elaborated is not None", False), ("cond", f"{m}._elaborated is None", True), ("cond", f"{m}._elaborated", False)]
     ok = all(any(g in w for g in guard_texts) for n in stores for w in IN[n.id]) and all(IN[n.id] for n in stores)
-    raises = any(isinstance(n, ast.If) and ast.unparse(n.test) in (f"{m}._elaborated is not None", f"{m}._elaborated") and au.raises(n.body) for n in au.walk_no_nested(fi.node))
+    raises = any(isinstance(n, ast.If) and ((ast.unparse(n.test) == f"{m}._elaborated" and au.raises(n.body)) or (ast.unparse(n.test) == f"{m}._elaborated is None" and au.raises(n.orelse))) for n in au.walk_no_nested(fi.node))
     R.check(ok and raises, rule, key_of(fi), fi.site,
             f"every container store in Module._add is reached only with `{m}._elaborated is None` established ({ok}); otherwise it raises ({raises})",
             why="an elaborated module accepts additions, which earlier parents and caches never see")
